@@ -24,10 +24,13 @@ import (
 	abcicli "github.com/tendermint/tendermint/abci/client"
 	abci "github.com/tendermint/tendermint/abci/types"
 	"github.com/tendermint/tendermint/config"
+	"github.com/tendermint/tendermint/crypto/ed25519"
 	"github.com/tendermint/tendermint/internal/verif/gosched"
 	"github.com/tendermint/tendermint/internal/verif/vr"
 	"github.com/tendermint/tendermint/libs/clist"
+	"github.com/tendermint/tendermint/libs/log"
 	"github.com/tendermint/tendermint/mempool"
+	sm "github.com/tendermint/tendermint/state"
 	"github.com/tendermint/tendermint/types"
 )
 
@@ -574,8 +577,10 @@ func (r *Ref) Settle() {
 	}
 }
 
-// Deliver answers request i with verdict v and returns an outcome label.
-func (r *Ref) Deliver(i int, v Verdict) string {
+// Deliver answers request i with verdict v and returns an outcome label. freshEntry tells whether the real
+// mempool created a new list entry for the transaction; it is consulted in one property-neutral corner only
+// (see below).
+func (r *Ref) Deliver(i int, v Verdict, freshEntry bool) string {
 	p := r.Q[i]
 	r.Q = append(append([]RefPend(nil), r.Q[:i]...), r.Q[i+1:]...)
 	t := p.T
@@ -619,6 +624,13 @@ func (r *Ref) Deliver(i int, v Verdict) string {
 		}
 		r.Pool = append(r.Pool, RefTx{T: t, Gas: v.Gas, H: r.H})
 		return "admitted"
+	}
+	if r.inPool(t) >= 0 && !freshEntry {
+		// v1, the transaction is in the pool already and the real mempool did not create a second entry: it
+		// refused the repeat outright (what a mempool that checks its index before inserting does). The
+		// other behaviour the statement allows - a higher-priority repeat evicts its own older copy and takes
+		// its place - is followed below when the real mempool did create a fresh entry.
+		return "already-in-pool"
 	}
 	out := "admitted"
 	if r.full(t) {
@@ -1088,10 +1100,10 @@ func (in *Inst) applyDeliver(i int, v Verdict) *Viol {
 		in.Dead = true
 		return nil
 	}
-	in.Outcome = "deliver:" + in.Ref.Deliver(i, v)
 	after, afterEl := in.WalkElems()
 	// harness history: admission order and application-assigned attributes of pool members. A list element
 	// that was not there before the response is a fresh admission of the answered transaction.
+	freshEntry := false
 	if !p.Recheck && v.Code == 0 {
 		for k, e := range afterEl {
 			fresh := after[k] == p.Tx
@@ -1101,6 +1113,7 @@ func (in *Inst) applyDeliver(i int, v Verdict) *Viol {
 				}
 			}
 			if fresh {
+				freshEntry = true
 				in.arrCtr++
 				in.arrival[p.Tx] = in.arrCtr
 				in.prio[p.Tx] = v.Prio
@@ -1108,6 +1121,7 @@ func (in *Inst) applyDeliver(i int, v Verdict) *Viol {
 			}
 		}
 	}
+	in.Outcome = "deliver:" + in.Ref.Deliver(i, v, freshEntry)
 	if p.Recheck && v.Code == 0 && in.C.Ver == 1 && count(after, p.Tx) > 0 {
 		in.prio[p.Tx] = v.Prio
 	}
@@ -2025,24 +2039,19 @@ func buildConc(ad ConcAdapter, scn Scenario, checkG bool) (*gosched.Sched, *conc
 	conn.Conc = cr
 	pool := in.Pool
 	h := in.H
-	// T0: the sequence BlockExecutor.Commit performs
+	// T0: the real BlockExecutor.Commit (Lock, FlushAppConn, application Commit, Update, Unlock) over the real
+	// mempool and a consensus connection whose Commit call is two scheduling points (request, response).
+	blockExec := sm.NewBlockExecutor(nil, log.NewNopLogger(), &consensusConn{cr: cr}, pool, sm.EmptyEvidencePool{})
+	state := sm.State{ConsensusParams: *types.DefaultConsensusParams(), Validators: concValSet}
+	txs := make(types.Txs, len(scn.Block))
+	resps := make([]*abci.ResponseDeliverTx, len(scn.Block))
+	for i, t := range scn.Block {
+		txs[i] = TxBytes[t]
+		resps[i] = &abci.ResponseDeliverTx{Code: uint32(scn.Codes[i])}
+	}
+	block := &types.Block{Header: types.Header{Height: h + 1}, Data: types.Data{Txs: txs}}
 	s.Go("commit", func() {
-		pool.Lock()
-		defer pool.Unlock()
-		if err := pool.FlushAppConn(); err != nil {
-			panic(err)
-		}
-		s.Point("app Commit request")
-		cr.log("Commit requested")
-		s.Point("app Commit response")
-		cr.log("Commit done")
-		txs := make(types.Txs, len(scn.Block))
-		resps := make([]*abci.ResponseDeliverTx, len(scn.Block))
-		for i, t := range scn.Block {
-			txs[i] = TxBytes[t]
-			resps[i] = &abci.ResponseDeliverTx{Code: uint32(scn.Codes[i])}
-		}
-		if err := pool.Update(h+1, txs, resps, nil, nil); err != nil {
+		if _, _, err := blockExec.Commit(state, block, resps); err != nil {
 			panic(err)
 		}
 		cr.log("Update returned")
@@ -2229,6 +2238,31 @@ func (cr *concRun) judge(res *gosched.Result) (*Viol, []string) {
 		}
 	}
 	return v, append(diags, cr.c05Clause()...)
+}
+
+var concValSet = types.NewValidatorSet([]*types.Validator{types.NewValidator(ed25519.GenPrivKeyFromSecret([]byte("c12")).PubKey(), 10)})
+
+// consensusConn is the consensus connection BlockExecutor.Commit talks to; only CommitSync is ever called.
+type consensusConn struct{ cr *concRun }
+
+func (c *consensusConn) SetResponseCallback(abcicli.Callback) {}
+func (c *consensusConn) Error() error                         { return nil }
+func (c *consensusConn) InitChainSync(abci.RequestInitChain) (*abci.ResponseInitChain, error) {
+	panic("not used")
+}
+func (c *consensusConn) BeginBlockSync(abci.RequestBeginBlock) (*abci.ResponseBeginBlock, error) {
+	panic("not used")
+}
+func (c *consensusConn) DeliverTxAsync(abci.RequestDeliverTx) *abcicli.ReqRes { panic("not used") }
+func (c *consensusConn) EndBlockSync(abci.RequestEndBlock) (*abci.ResponseEndBlock, error) {
+	panic("not used")
+}
+func (c *consensusConn) CommitSync() (*abci.ResponseCommit, error) {
+	c.cr.s.Point("app Commit request")
+	c.cr.log("Commit requested")
+	c.cr.s.Point("app Commit response")
+	c.cr.log("Commit done")
+	return &abci.ResponseCommit{}, nil
 }
 
 // conc-mode behaviour of the connection -----------------------------------------------------------
